@@ -392,6 +392,7 @@ def run_c18(rep: Report, tier: str) -> None:
             site = f"wheel({'build' if nm['build'] else 'nobuild'},{nm['mut']})"
             try:
                 got = parse_wheel_tags(fname)
+                got = tuple(list(x) for x in got)          # (whatever iterable is returned, it is read once)
                 exc = None
             except InvalidWheelFilename:
                 got, exc = None, "InvalidWheelFilename"
@@ -416,8 +417,10 @@ def run_c18(rep: Report, tier: str) -> None:
                     try:
                         es = EnvSpec.from_spec(">=3.9", "linux", "cpython")
                         wc = es.wheel_compatibility(fname)
-                        if wc != es.compatibility(*got):
-                            rep.violation(f"C18:{site}:wheel_compatibility-differs", f"{fname}", ctx)
+                        # what wheel_compatibility() must have seen: the best of packaging's expanded tag triples
+                        best = max(filter(None, (es.compatibility([t.interpreter], [t.abi], [t.platform]) for t in ptags)), default=None)
+                        if wc != best:
+                            rep.violation(f"C18:{site}:wheel_compatibility-differs", f"{fname}: wheel_compatibility() = {wc}, best over packaging's expanded tags = {best}", ctx)
                     except Exception as e:  # noqa: BLE001
                         rep.violation(f"C18:{site}:wheel_compatibility-raises-{type(e).__name__}", repr(e), ctx)
             else:
